@@ -437,7 +437,7 @@ def library_grad(recipe, sname: str, method: str, jp: bool, cot: Dict[Tuple[int,
 
 
 def _shape_tags(recipe) -> str:
-    """coarse input class for keys: features of the grammar that matter to J / J_precompute_products."""
+    """coarse description of the grammar for the `what` line."""
     tags = []
     if any(len(r["edges"]) >= 3 for r in recipe["rules"]):
         tags.append("ge3edges")
@@ -451,11 +451,98 @@ def _shape_tags(recipe) -> str:
     return "+".join(tags) or "plain"
 
 
+def _real_tables(recipe):
+    ref = G.reference_sum_products(recipe, "Real", max_iter=3000)
+    tws = G.convert_weights(recipe, "Real")
+    tw = {t: G._table(tws[t], G.shape_of(recipe, t)) for t in tws}
+    val = {x: G._table(ref[x], G.shape_of(recipe, x)) for x in ref}
+    return tw, val
+
+
+def zero_valued_recursive_nonterminal(recipe) -> bool:
+    """some nonterminal of a cyclic SCC has the value exactly 0 at every assignment (e.g. its only base case has
+    weight 0): fixed-point iteration never stores an entry for it (0 == absent passes the stopping test), so the
+    value returned is a constant zero tensor that is not connected to the weights."""
+    ref = G.reference_sum_products(recipe, "Real", max_iter=3000)
+    for comp in G.sccs(recipe):
+        if not G.scc_is_cyclic(recipe, comp):
+            continue
+        for x in comp:
+            if all(v == 0 for v in G.flatten(ref[x])):
+                return True
+    return False
+
+
+def zero_valued_rule_entry(recipe) -> bool:
+    """some rule with edges has value exactly 0 at one external assignment but not at all of them, or next to
+    another rule of the same nonterminal (J_log normalises the rule's terms there)."""
+    tw, val = _real_tables(recipe)
+    rules = G._compile(recipe)
+    for x, rs in rules.items():
+        vals = []
+        for rule in rs:
+            if not rule[3]:
+                continue
+            vs = [G._rule_value(G._Real, rule, a, tw, val) for a in itertools.product(*[range(s) for s in G.shape_of(recipe, x)])]
+            vals.append(vs)
+        for vs in vals:
+            if any(v == 0 for v in vs) and (any(v != 0 for v in vs) or len(rs) > 1):
+                return True
+    return False
+
+
+def jprecompute_classes(recipe) -> List[str]:
+    """the rule shapes (>= 2 edges) J_precompute_products is known to mishandle (measured on the recipe)."""
+    out = []
+    for r in recipe["rules"]:
+        if len(r["edges"]) < 2:
+            continue
+        att = set(i for e in r["edges"] for i in e["att"])
+        if any(i not in att and i not in r["ext"] for i in range(len(r["nodes"]))):
+            out.append("edgeless-internal-node-in-rule-with-ge2-edges")
+        for k in (0, len(r["edges"]) - 1):
+            others = set(i for j, e in enumerate(r["edges"]) if j != k for i in e["att"])
+            if any(i not in others for i in r["edges"][k]["att"]):
+                out.append("end-edge-has-node-on-no-other-edge")
+        for e in r["edges"]:
+            both = list(r["ext"]) + list(e["att"])
+            if len(set(both)) < len(both):
+                out.append("repeated-node-in-ext+edge.nodes")
+    return sorted(set(out))
+
+
+def input_class(recipe, sname: str, jp: bool, kind: str) -> str:
+    if kind == "missing-gradient" and zero_valued_recursive_nonterminal(recipe):
+        return "zero-valued-recursive-nonterminal"
+    if jp:
+        cl = jprecompute_classes(recipe)
+        # one class per failure: exceptions come from the shape bookkeeping of the first/last edge, wrong
+        # numbers from the multiplier of edgeless internal nodes
+        prio = (("end-edge-has-node-on-no-other-edge", "repeated-node-in-ext+edge.nodes",
+                 "edgeless-internal-node-in-rule-with-ge2-edges") if kind.startswith("exception") else
+                ("edgeless-internal-node-in-rule-with-ge2-edges", "repeated-node-in-ext+edge.nodes",
+                 "end-edge-has-node-on-no-other-edge"))
+        for c in prio:
+            if c in cl:
+                return c
+    if sname == "Log" and zero_valued_rule_entry(recipe):
+        return "zero-valued-rule-entry"
+    return "other:" + _shape_tags(recipe)
+
+
+def make_key(recipe, sname: str, method: str, jp: bool, phase: str, kind: str) -> str:
+    """semiring[-jprecompute]:[method:]kind:input-class -- the method is part of the key only when the forward
+    pass matters (exceptions in the forward pass, a gradient that is missing altogether)."""
+    pre = sname.lower() + ("-jprecompute" if jp else "")
+    simple = "exception" if kind.startswith("exception") else ("inf-or-nan" if kind in ("inf", "nan") else kind)
+    mid = f"{method}:" if (phase == "forward" or kind == "missing-gradient") else ""
+    return f"{pre}:{mid}{phase}-{simple}:{input_class(recipe, sname, jp, kind)}"
+
+
 def check_config(recipe, o: Oracle, sname: str, method: str, jp: bool, cname: str,
                  cot: Dict[Tuple[int, ...], float]) -> Tuple[List[dict], str]:
     case = {"recipe": recipe, "semiring": sname, "method": method, "j_precompute": jp, "cotangent_name": cname,
             "cotangent": [[list(a), c] for a, c in sorted(cot.items())]}
-    pre = f"{sname.lower()}-{method}" + ("-jprecompute" if jp else "")
     status, payload, wl = library_grad(recipe, sname, method, jp, cot)
     if status != "ok":
         e = payload
@@ -463,7 +550,7 @@ def check_config(recipe, o: Oracle, sname: str, method: str, jp: bool, cname: st
             return [], "linear-not-applicable"
         clause = "sum_product.no_exception" if status == "exception-forward" else "backward.no_exception"
         return [{"clause": clause, "kind": f"{status}-{type(e).__name__}",
-                 "key": f"{pre}:{status}-{type(e).__name__}@{_exc_site(e)}:{_shape_tags(recipe)}",
+                 "key": make_key(recipe, sname, method, jp, status.split("-")[1], status),
                  "detail": f"observed {type(e).__name__}: {str(e)[:300]} at {_exc_site(e)}; expected gradients "
                            f"{json.dumps(expected_grad(recipe, o, sname, cot))[:400]}",
                  "case": case}], status
@@ -502,7 +589,7 @@ def check_config(recipe, o: Oracle, sname: str, method: str, jp: bool, cname: st
         if worst:
             idx, ob, ex, kind = worst
             clause = "backward.grad_is_dZ_dw" if sname == "Real" else "backward.grad_is_dlogZ_dlogw"
-            out.append({"clause": clause, "kind": kind, "key": f"{pre}:{kind}:{_shape_tags(recipe)}",
+            out.append({"clause": clause, "kind": kind, "key": make_key(recipe, sname, method, jp, "backward", kind),
                         "detail": f"factor {t} entry {list(idx)} cotangent {cname}: observed {G.jnum(ob)} expected {ex!r} "
                                   f"(observed grad {json.dumps(G.map_nested(G.jnum, grads[t])) if grads[t] is not None else None} "
                                   f"expected {json.dumps(exp[t])}; Z observed {json.dumps(G.map_nested(G.jnum, zdense))})",
@@ -575,7 +662,7 @@ def _what(f: dict) -> str:
     c = f["case"]
     fam = (c["recipe"].get("meta") or {}).get("family", "")
     return (f"{c['semiring']}/float64/{c['method']}/j_precompute={c['j_precompute']} cotangent {c['cotangent_name']}: "
-            f"{f['kind']} [{f['key']}] on grammar {fam}")
+            f"{f['kind']} [{f['key']}] on grammar {fam} ({_shape_tags(c['recipe'])})")
 
 
 def _preimport():
